@@ -140,6 +140,24 @@ def run_blocks(cmd, data, timeout=45):
     return rc, blocks, err
 
 
+def run_blocks_confirmed(cmd, lines, timeout):
+    """run_blocks over all case lines; a time-out is only a hang when CONFIRMED: the case at which the output stopped is
+    re-run alone (a case takes milliseconds; 30 s).  If it completes, the time-out was machine load (a fresh-copy run of the
+    whole check hit the 20 s limit of the delay leg on the unchanged tree): the remaining cases are run with a generous
+    limit and the outputs joined (each case's output is a function of the case alone - that is the property)."""
+    rc, blocks, err = run_blocks(cmd, ("\n".join(lines) + "\n").encode(), timeout)
+    tries = 0
+    while rc == 124 and tries < 4 and len(blocks) < len(lines):
+        k = len(blocks)
+        rc1, b1, _ = run_blocks(cmd, (lines[k] + "\n").encode(), 30)
+        if rc1 == 124 or not b1:
+            break                      # the case alone does not finish: a genuine hang, reported as such
+        rc, b2, err = run_blocks(cmd, ("\n".join(lines[k:]) + "\n").encode(), max(300, timeout * 10))
+        blocks += b2
+        tries += 1
+    return rc, blocks, err
+
+
 def component_cases(ctx):
     """-> list of (group key, line).  One group = one (bs, file list); all runs of a group must agree."""
     cases = []
@@ -195,9 +213,9 @@ def tie_component(ctx, bl, drv):
     if not quick:
         for k in range(4):
             legs.append(("threads+delay#%d" % k, [bl["h_thr"], "--delay", str(ctx.seed * 977 + k + 100)]))
-    leg_timeout = 20 if quick else 900
+    leg_timeout = int(os.environ.get("VERIF_C02_LEG_TIMEOUT", 20 if quick else 900))   # env: test hook for the confirmation path
     with ThreadPoolExecutor(max_workers=8) as ex:
-        results = list(ex.map(lambda lg: run_blocks(lg[1], data, leg_timeout), legs))
+        results = list(ex.map(lambda lg: run_blocks_confirmed(lg[1], lines, leg_timeout), legs))
     res = {legs[i][0]: results[i] for i in range(len(legs))}
     model = res["model"][1]
     if res["model"][0] != 0 or len(model) != len(lines):
